@@ -1244,11 +1244,9 @@ FULL STATEMENTS (not proved):
       for attr / remove-node-mark steps (they change no mark set a parent could refuse; add-node-mark needs that the
       parent of the addressed node keeps its type, finding C17-parent-retyped);
     commute_succeeds_around_removeMark, commute_succeeds_around_addMark_partial (under `ParentStable`).
-Proved: the node step strictly before `from` (its token may be an ancestor's open token), under `commuteGuard`
+Proved: the node step strictly before `from` (its token may be an ancestor's open token) or strictly after `to`, under `commuteGuard`
 (not forced for attr steps: a guard-free proof needs "a replace does not read the markup of tokens outside its range
 except through `validContent` of rebuilt parents", which does not exist yet).  Missing for the rest:
-* `t < pos`: the same proof with `around_again_same` and `nodeAtKids_of_head` at the shifted position — not done
-  for lack of time, nothing new needed;
 * inside the gap: as for `commute_succeeds_around_gap` below (the filled slice differs in one token's markup);
 * mark steps: their slice may be open, and `da.slice f2' t2'` has to be shown to carry the same markup on its open
   spine as `d.slice f2 t2` (`slice_again` covers closed slices only); alternatively `addMark_applies` /
@@ -1330,6 +1328,105 @@ theorem commute_succeeds_around_nodeStep_before_partial (S : Schema) (d da db : 
     rw [hl1] at this
     rwa [show pos + 1 + (f - (pos + 1)) = f by omega, show pos + 1 + (t - (pos + 1)) = t by omega,
       show pos + 1 + (gf - (pos + 1)) = gf by omega, show pos + 1 + (gt - (pos + 1)) = gt by omega] at this
+
+/-- **the token strictly after the replace-around step's range** (`to < pos`): the node step moves by the step's size
+    change, the replace-around step is unchanged -/
+theorem commute_succeeds_around_nodeStep_after_partial (S : Schema) (d da db : Node) (f t gf gt ins : Nat)
+    (sl : Slice) (st : Bool) (pos : Nat) (N : Step) (hN : NodeStepAt pos N)
+    (hn : fnorm d.kids = true) (hsn : fnorm sl.content = true)
+    (hs : AroundShape f t gf gt sl ins) (hsep : t < pos)
+    (ha : S.apply (.replaceAround f t gf gt sl ins st) d = .ok da) (hb : S.apply N d = .ok db)
+    (hg : commuteGuard d.kids f t sl pos (pos + 1) ⟨[], 0, 0⟩ = true) :
+    ∃ N' dab, N.map (Step.replaceAround f t gf gt sl ins st).getMap = some N' ∧
+      (Step.replaceAround f t gf gt sl ins st).map N.getMap = some (.replaceAround f t gf gt sl ins st) ∧
+      S.apply N' da = .ok dab ∧ S.apply (.replaceAround f t gf gt sl ins st) db = .ok dab := by
+  have hsp : N.posSpan = some (pos, pos) := by
+    rcases hN with ⟨m, rfl⟩ | ⟨m, rfl⟩ | ⟨n, v, rfl⟩ <;> rfl
+  have hto : N.touch = some (pos, pos + 1) := by
+    rcases hN with ⟨m, rfl⟩ | ⟨m, rfl⟩ | ⟨n, v, rfl⟩ <;> rfl
+  obtain ⟨n, u, hnat, hu, hfrN⟩ := nodeStep_full S d db pos N hN hb
+  obtain ⟨hposlt, _, htok, _, _, _, _⟩ := nodeRepl_toks S d db n u pos _ _ hnat hu hfrN
+  obtain ⟨hsz, hun⟩ := nodeSlice_facts S n u _ _ hu
+  have hnt : n.isText = false := by
+    cases n with
+    | text s m => simp [Schema.recreate] at hu
+    | leaf => rfl
+    | elem => rfl
+  have hb2 : S.apply (.replace pos (pos + 1) ⟨[u], 0, if n.isLeaf then 0 else 1⟩ false) d = .ok db := by
+    simpa [Schema.apply] using hfrN
+  obtain ⟨gap, I, hgap, ho1, ho2, hinst, ha2, hio, hin, hisz, hl⟩ :=
+    around_as_replace S d da f t gf gt ins sl st hn hsn hs ha
+  have hgo := hs.2.2
+  have hg' : commuteGuard d.kids f t I pos (pos + 1) ⟨[u], 0, if n.isLeaf then 0 else 1⟩ = true := by
+    rw [commuteGuard_openStart _ _ _ _ _ sl ⟨[], 0, 0⟩ I ⟨[u], 0, if n.isLeaf then 0 else 1⟩ hio rfl]; exact hg
+  obtain ⟨a', b', dab, hb', ha', hab, hba⟩ := commute_succeeds_replace S d da db f t pos (pos + 1) I _
+    false false hn hin hun hsep ha2 hb2 hg'
+  obtain ⟨hdb, _, hlp, hlenN⟩ := apply_replace_splice S d db pos (pos + 1) _ false hb2
+  obtain ⟨hda, _, _, hleni⟩ := apply_replace_splice S d da f t I false ha2
+  obtain ⟨r1, r2⟩ := rebase_separated_after f t pos (pos + 1) I ⟨[u], 0, if n.isLeaf then 0 else 1⟩ false false
+    (by omega) (by omega) hsep (by omega)
+  rw [r1] at hb'; rw [r2] at ha'
+  simp only [Option.some.injEq] at hb' ha'
+  subst hb' ha'
+  have hnb := apply_replace_norm S d db pos (pos + 1) _ false hn hun hb2
+  have hna := apply_replace_norm S d da f t I false hn hin ha2
+  have hmap := (rebase_markup_not_dropped_around N pos pos hsp (Nat.le_refl _) f t gf gt sl ins st hgo).2.2 hsep
+  have n1 : ∀ p : Nat, t < p →
+      ((p : Int) + ((ins : Int) - ((gf : Int) - f)) + (sl.size - ins - ((t : Int) - gt))).toNat =
+        f + I.toks.length + (p - t) := by
+    intro p hp; omega
+  have n2 : ∀ p : Nat, t < p → ((p : Int) + I.size - ((t : Int) - f)).toNat = f + I.toks.length + (p - t) := by
+    intro p hp; omega
+  generalize hgdef : (fun p : Nat => ((p : Int) + ((ins : Int) - ((gf : Int) - f)) +
+    (sl.size - ins - ((t : Int) - gt))).toNat) = g at hmap
+  have hgpos : g pos = f + I.toks.length + (pos - t) := by rw [← hgdef]; exact n1 pos hsep
+  refine ⟨_, dab, hmap, ?_, ?_, ?_⟩
+  · rw [getMap_of_touch N pos (pos + 1) hto]
+    exact replaceAround_map_empty f t gf gt sl ins st ⟨hgo.1, hgo.2.2⟩
+  · have hfr := apply_replace_fromReplace S da dab _ _ _ false hab
+    rw [n2 pos hsep, n2 (pos + 1) (by omega)] at hfr
+    obtain ⟨e1, e2, e3⟩ := stepAttrs_mapPos N g pos hN
+    rw [hgpos] at e3
+    have hp : pos < (ftoks d.kids).length := by omega
+    have htok' : (ftoks da.kids)[f + I.toks.length + (pos - t)]? = some n.headTok := by
+      have := splice_window_after (ftoks d.kids) I.toks f t pos 1 (by omega) (by omega) (by omega)
+      rw [← hda] at this
+      have h0 := congrArg (fun l => l[0]?) this
+      simp only [List.getElem?_take_of_lt (Nat.zero_lt_one), List.getElem?_drop, Nat.add_zero] at h0
+      rw [h0, List.getElem?_eq_getElem hp]
+      rw [List.getD_eq_getElem?_getD, List.getElem?_eq_getElem hp] at htok
+      simpa using htok
+    obtain ⟨n', hnat', hhd, hnt'⟩ := nodeAtKids_of_head da.kids _ n.headTok (fnormKids_of_fnorm hna) htok'
+      (by cases n <;> simp [Node.headTok, Node.isText] at hnt ⊢)
+      (by intro c m; cases n <;> simp [Node.headTok, Node.isText] at hnt ⊢)
+    obtain ⟨c1, c2, c3, c4⟩ := recreate_congr_head S n n' (stepAttrs N n.attrs) (stepMarks S N n.marks) hhd hnt hnt'
+    have hu' : S.recreate n' (stepAttrs (N.mapPos g) n'.attrs) (stepMarks S (N.mapPos g) n'.marks) = .ok u := by
+      rw [e1, e2 S, c2, c3, c1]; exact hu
+    rw [nodeStep_apply_of S da n' u _ _ e3 hnat' hu', c4]
+    rw [show f + I.toks.length + (pos + 1 - t) = f + I.toks.length + (pos - t) + 1 by omega] at hfr
+    exact hfr
+  · have hfr := apply_replace_fromReplace S db dab _ _ I false hba
+    exact around_again_same S d db da dab f t gf gt ins pos (pos + 1) sl _ st gap I hn hnb hgo hsep
+      (by omega) (by omega) hdb ha hgap ho1 ho2 hinst hfr
+
+/-- **a replace-around step and a node-mark / attr step on a token strictly outside `[from, to]`, one of the two inside
+    a node the other one does not touch**: neither rebased step is dropped, both orders apply, and they give the same
+    document -/
+theorem commute_succeeds_around_nodeStep_partial (S : Schema) (d da db : Node) (f t gf gt ins : Nat)
+    (sl : Slice) (st : Bool) (pos : Nat) (N : Step) (hN : NodeStepAt pos N)
+    (hn : fnorm d.kids = true) (hsn : fnorm sl.content = true)
+    (hs : AroundShape f t gf gt sl ins)
+    (ha : S.apply (.replaceAround f t gf gt sl ins st) d = .ok da) (hb : S.apply N d = .ok db)
+    (hg : (pos + 1 < f ∧ commuteGuard d.kids pos (pos + 1) ⟨[], 0, 0⟩ f t sl = true) ∨
+      (t < pos ∧ commuteGuard d.kids f t sl pos (pos + 1) ⟨[], 0, 0⟩ = true)) :
+    ∃ N' dab, N.map (Step.replaceAround f t gf gt sl ins st).getMap = some N' ∧
+      (Step.replaceAround f t gf gt sl ins st).map N.getMap = some (.replaceAround f t gf gt sl ins st) ∧
+      S.apply N' da = .ok dab ∧ S.apply (.replaceAround f t gf gt sl ins st) db = .ok dab := by
+  rcases hg with ⟨h, hg⟩ | ⟨h, hg⟩
+  · obtain ⟨dab, h1, h2, h3, h4⟩ := commute_succeeds_around_nodeStep_before_partial S d da db f t gf gt ins sl st pos N
+      hN hn hsn hs h ha hb hg
+    exact ⟨N, dab, h1, h2, h3, h4⟩
+  · exact commute_succeeds_around_nodeStep_after_partial S d da db f t gf gt ins sl st pos N hN hn hsn hs h ha hb hg
 
 /-! Non-vacuity of the decidable hypotheses of `commute_succeeds_around_around`: in
     `doc(quote(p("a")), quote(p("b")))` two users re-create the two paragraphs around their content
